@@ -7,3 +7,4 @@ CONSTANTS
   Limits <- LimitLimits
   Alphabet <- LimitAlphabet
   MaxDepth = 4
+  Emit = TRUE
